@@ -48,17 +48,18 @@ structure Cfg where
   dtorKey   : List KOp
   dtorNo    : List KOp
   tlsLookup : Bool          -- `ets_base<ets_key_per_instance>::table_lookup` has the shape quoted above
+  swapKey   : Bool          -- `internal_swap` (same-type move construction / move assignment / swap) exchanges `my_locals`, the table AND `my_key`
   deriving DecidableEq, Repr
 
-def Cfg.ofCodes (ck cn kk kn dk dn : List Nat) (tl : Bool) : Cfg :=
-  ⟨ck.map KOp.decode, cn.map KOp.decode, kk.map KOp.decode, kn.map KOp.decode, dk.map KOp.decode, dn.map KOp.decode, tl⟩
+def Cfg.ofCodes (ck cn kk kn dk dn : List Nat) (tl : Bool) (sw : Bool := true) : Cfg :=
+  ⟨ck.map KOp.decode, cn.map KOp.decode, kk.map KOp.decode, kn.map KOp.decode, dk.map KOp.decode, dn.map KOp.decode, tl, sw⟩
 
 /-- what /repo's unchanged header does -/
 def Cfg.expected : Cfg :=
   { clearKey := [.localsClear, .destroyKey, .createKey, .superClear], clearNo := [.localsClear, .superClear],
     ctorKey := [.createKey], ctorNo := [],
     dtorKey := [.destroyKey, .createKey, .superClear, .localsClear, .destroyKey], dtorNo := [.superClear, .localsClear],
-    tlsLookup := true }
+    tlsLookup := true, swapKey := true }
 
 /-- a finished `local()` call -/
 structure Ret where
@@ -134,15 +135,27 @@ inductive Op where
   | loc (t : Tid)          -- `local()` by thread t
   | clear (t : Tid)        -- `clear()` called by thread t
   | recreate (t : Tid)     -- thread t destroys the container and constructs a new one at the same address
+  | moveFresh (t : Tid)    -- thread t move-assigns a freshly constructed container into this one: `C fresh; cont = std::move(fresh);`
   deriving DecidableEq, Repr
 
 def clearOps (cfg : Cfg) (s : St) : List KOp := if s.perInst then cfg.clearKey else cfg.clearNo
 def recreateOps (cfg : Cfg) (s : St) : List KOp := if s.perInst then cfg.dtorKey ++ cfg.ctorKey else cfg.dtorNo ++ cfg.ctorNo
 
+/-- `C fresh; cont = std::move(fresh);` (same-type move assignment = `internal_swap`, then the temporary dies with the old
+contents).  If `internal_swap` exchanges the key together with the table and `my_locals`, everything the container owned
+(elements, table, key) dies with the temporary and the container continues with the temporary's fresh state: the same
+state change as destroy-and-re-construct.  If the key is NOT exchanged (the table and `my_locals` are), the container keeps
+its old key — under which threads still cache pointers to elements that now die with the temporary — while the
+temporary's key is created and deleted again. -/
+def moveFreshStep (cfg : Cfg) (s : St) (t : Tid) : St :=
+  if !s.perInst || cfg.swapKey then (recreateOps cfg s).foldl (kstep t) s
+  else { s with table := fun _ => none, locals := [], gen := s.gen + 1, nkeys := s.nkeys + 1 }
+
 def step (cfg : Cfg) (s : St) : Op → St
   | .loc t => localStep cfg s t
   | .clear t => (clearOps cfg s).foldl (kstep t) s
   | .recreate t => (recreateOps cfg s).foldl (kstep t) s
+  | .moveFresh t => moveFreshStep cfg s t
 
 def init (cfg : Cfg) (perInst : Bool) : St :=
   (if perInst then cfg.ctorKey else cfg.ctorNo).foldl (kstep 0) { perInst := perInst }
@@ -160,7 +173,7 @@ def showRet (r : Ret) : String :=
   (if r.own then s!"{r.tid}@{r.pgen}" else if r.pgen = r.cur then "?" else "dead") ++ " " ++ showBool r.ex
 
 /-- `cfg <7 code lists separated by | > <tls 0|1>` is not needed by the check (the driver uses the generated cfg, see
-Driver/C19.lean); `new <0|1>` constructs a container (1 = ets_key_per_instance); `l t` / `c t` / `r t`; every command
+Driver/C19.lean); `new <0|1>` constructs a container (1 = ets_key_per_instance); `l t` / `c t` / `r t` / `x t` (move-assign a fresh container); every command
 prints `<result of the local() or -> | <size> <live keys> <bad>` -/
 def drive (d : DSt) (ws : List String) : DSt × String :=
   let fin (st : St) (res : String) : DSt × String :=
@@ -179,6 +192,9 @@ def drive (d : DSt) (ws : List String) : DSt × String :=
       | none => (d, "bad-op")
   | ["r", t] => match nat? t with
       | some t => fin (step d.cfg d.st (.recreate t)) "-"
+      | none => (d, "bad-op")
+  | ["x", t] => match nat? t with
+      | some t => fin (step d.cfg d.st (.moveFresh t)) "-"
       | none => (d, "bad-op")
   | _ => (d, "bad-op")
 
